@@ -267,7 +267,7 @@ def cases(tier):
         arrays.append({"type": "nongrid", "name": "nongrid_24x224", "n_pos": 24, "n_generic": 200})
         arrays.append({"type": "grid", "name": "grid_cube4D40_ico42_2r", "b": "cube4D_40", "o": "ico_42", "t": "[0.2,0.5]"})
     out = []
-    for m2 in ("He", "HF", "H2O", "NH3", "CHFClBr") + (("glucose", "bent4") if tier == "thorough" else ()):
+    for m2 in ("He", "HF", "H2O", "NH3", "CHFClBr", "H2O_dummy") + (("glucose", "bent4") if tier == "thorough" else ()):
         for m1 in ("H2O", "He"):
             for a in arrays:
                 out.append({"m1": m1, "m2": m2, "array": a})
